@@ -636,26 +636,59 @@ pub fn gen_plan(rng: &mut Rng) -> RunPlan {
             options: *rng.pick(&menu),
         });
     }
-    let n_proc = match rng.below(10) {
-        0..=5 => 1,
-        6..=8 => 2,
-        _ => 3,
+    // 5 % of the runs are a stress run: one process, twelve free-running threads, each calling its
+    // own twin of one small shader forty times. Twins cost exactly the same, so the threads stay in
+    // lockstep and reach every point of the library at the same instant again and again -
+    // uncontrolled and not replayable (see Policy::Free), but the only way to reach races whose
+    // window is a couple of machine instructions.
+    let stress = rng.chance(50) || std::env::var_os("VERIF_C18_STRESS_ONLY").is_some();
+    if stress {
+        let seed = rng.below(48);
+        let options = *rng.pick(&menu[..8]);
+        pool = (0..12)
+            .map(|variant| Job {
+                shader: ShaderRef::Twin { seed, variant },
+                include_path: None,
+                options: Opts {
+                    rustfmt: false,
+                    ..options
+                },
+            })
+            .collect();
+    }
+    let n_proc = if stress {
+        1
+    } else {
+        match rng.below(10) {
+            0..=5 => 1,
+            6..=8 => 2,
+            _ => 3,
+        }
     };
     let mut processes = Vec::new();
     for _ in 0..n_proc {
-        let n_threads = rng.usize(1, 6);
+        let n_threads = if stress { 12 } else { rng.usize(1, 6) };
         // scheduling points at heap allocations: off, sparse, dense (per process)
         let alloc_every = *rng.pick(&[0u64, 0, 0, 997, 211, 37]);
         let threads: Vec<ThreadPlan> = (0..n_threads)
             .map(|_| ThreadPlan {
                 alloc_point_every: alloc_every,
                 entropy: rng.next_u64() | 1,
-                jobs: (0..rng.usize(1, 6)).map(|_| rng.usize(0, pool.len() - 1)).collect(),
+                jobs: Vec::new(),
             })
             .collect();
+        let mut threads = threads;
+        for (t, thread) in threads.iter_mut().enumerate() {
+            thread.jobs = if stress {
+                vec![t % pool.len(); 40]
+            } else {
+                (0..rng.usize(1, 6)).map(|_| rng.usize(0, pool.len() - 1)).collect()
+            };
+        }
         let total_jobs: usize = threads.iter().map(|t| t.jobs.len()).sum();
         let est_steps = (total_jobs as u64) * 120;
-        let policy = match rng.below(8) {
+        let policy = match if stress { 8 } else { rng.below(9) } {
+            8 => Policy::Free,
             0 => Policy::Random { preempt_permille: 0 },
             1 => Policy::Random { preempt_permille: 20 },
             2 => Policy::Random { preempt_permille: 100 },
@@ -1196,6 +1229,7 @@ fn run_batch(scratch: &Scratch, golden: &Golden, seed: u64, n: u64) -> Result<Ta
                                 let name = match &p.sched.policy {
                                     Policy::Random { preempt_permille } => format!("random_p{preempt_permille}"),
                                     Policy::Pct { change_points } => format!("pct_d{}", change_points.len()),
+                                    Policy::Free => "free_running_uncontrolled".to_string(),
                                 };
                                 *local.policies.entry(name).or_default() += 1;
                             }
